@@ -12,6 +12,8 @@
 (*   status, errnz     exit status; was anything written to stderr         *)
 (*   echofd, elines    the script was read through a descriptor and has a  *)
 (*                     `set -v` line: stderr split into lines              *)
+(*   nbmax, nb0        O_NONBLOCK of descriptor 0 in the pipe-fed runs     *)
+(* Non-ASCII characters / bytes appear as the placeholders of InputLoop.    *)
 (* The record is accepted iff it is what InputLoop's machine does with     *)
 (* that script: same commands executed in the same order with the same     *)
 (* arguments (incl. the data every `read` obtained, the alias prefix, the  *)
@@ -41,7 +43,9 @@ EventsOK(r, e) ==
   /\ Len(r.trace) >= Len(e.trace)
   /\ \A i \in 1..Len(e.trace) :
        /\ Len(r.trace[i].args) = Len(e.trace[i].args)
-       /\ \A j \in 1..Len(e.trace[i].args) : r.trace[i].args[j] = e.trace[i].args[j]
+       /\ \A j \in 1..Len(e.trace[i].args) :
+            \/ e.trace[i].fr /\ j = Len(e.trace[i].args)     \* what a failed `read` left in $v is open
+            \/ r.trace[i].args[j] = e.trace[i].args[j]
        /\ Norm(r.trace[i].st) = e.trace[i].st
        /\ (r.trace[i].off = -1 \/ r.trace[i].off = Bytes(e, e.trace[i].off))
 
@@ -52,14 +56,23 @@ TraceOK(r, e) == Len(r.trace) = Len(e.trace) /\ EventsOK(r, e)
 \* by the text of a diagnostic, so it is not compared)
 EchoOK(r, e) ==
   IF ~r.echofd THEN TRUE
-  ELSE /\ Len(r.elines) >= Len(e.echo)
-       /\ \A j \in 1..Len(e.echo) :
+  ELSE LET n == IF e.noisy THEN e.necho ELSE Len(e.echo)   \* a complaint of `read` may follow
+       IN
+       /\ Len(r.elines) >= n
+       /\ \A j \in 1..n :
             LET i == e.echo[j] IN
             IF i = Len(r.lines) /\ ~r.nl THEN TRUE
             ELSE r.elines[j] = Text(r.lines[i], i) \o "\n"
 
+\* nbmax: over the runs of this record whose descriptor 0 was a pipe, the
+\* largest O_NONBLOCK flag (0 / 1) of its open file description seen at a probe
+\* or after the run; -1: no such run.  nb0: some of them started with the flag set.
+NbOK(r) ==
+  r.nbmax = -1 \/ r.nbmax = (IF StdinModeAfterStartup("fd", "pipe", r.nb0) THEN 1 ELSE 0)
+
 Accept(r) ==
   /\ TextOK(r)
+  /\ NbOK(r)
   /\ r.feed \in {"fd", "str"}
   /\ (r.lines = <<>> => r.nl)
   /\ LET e == Oracle(r.lines, r.nl, r.feed) IN
